@@ -363,6 +363,9 @@ def decorate(rng, name):
         return name.replace("/", "/./", 1)
     if r < 0.2:
         return "$R/" + WD + "/" + name
+    if r < 0.23:
+        # absolute name under a directory that only shares the working directory's name as a prefix
+        return "$R/" + rng.choice(WD_SIBLINGS) + "/" + name
     return name
 
 
@@ -392,7 +395,11 @@ def gen_benign_members(rng, n):
 def gen_hostile(rng):
     """templates that certainly leave the working directory when extracted naively (planted=True)"""
     t = rng.choice(["parent", "parent-mid", "abs-dest-parent", "sym-file", "sym-chain", "sym-abs", "hard-victim",
-                    "shallow-link", "sym-dir-attrs", "abs-outside", "sym-outside-only"])
+                    "shallow-link", "sym-dir-attrs", "abs-outside", "sym-outside-only",
+                    "abs-sibling", "abs-sibling", "parent-sibling", "sym-abs-sibling", "sym-rel-sibling",
+                    "hard-sibling", "abs-sibling-dir"])
+    sib = rng.choice(WD_SIBLINGS)                 # e.g. <working directory>-x
+    sibname = sib.rsplit("/", 1)[1]
     esc = rng.choice(["escaped.txt", "e/escaped.txt", "outside/new.txt"])
     ups = "../" * rng.randint(1, 3)
     if t == "parent":
@@ -415,9 +422,22 @@ def gen_hostile(rng):
         ms = [["sym", "l", UP6 + "outside/dir"], ["dir", "l", ""], ["file", "l/new.txt", ""]]
     elif t == "abs-outside":
         ms = [["file", "$R/outside/abs.txt", ""]]
+    elif t == "abs-sibling":
+        # textually the name starts with the working directory's path (without the separator)
+        ms = [["file", "$R/" + sib + "/" + rng.choice(["evil", "keep.txt", "sub/evil", "new/deep/evil"]), ""]]
+    elif t == "abs-sibling-dir":
+        ms = [["dir", "$R/" + sib + rng.choice(["", "/", "/newdir"]), ""], ["file", "$R/" + sib + "/newdir/evil", ""]]
+    elif t == "parent-sibling":
+        ms = [["file", "../" + sibname + "/" + rng.choice(["evil", "keep.txt"]), ""]]
+    elif t == "sym-abs-sibling":
+        ms = [["sym", "l", "$R/" + sib], ["file", "l/" + rng.choice(["new.txt", "keep.txt", "sub/new.txt"]), ""]]
+    elif t == "sym-rel-sibling":
+        ms = [["sym", "l", "../" + sibname], ["file", "l/new.txt", ""]]
+    elif t == "hard-sibling":
+        ms = [["hard", "h", rng.choice(["../" + sibname, "$R/" + sib]) + "/keep.txt"], ["file", "h", ""]]
     else:
         ms = [["sym", "l", UP6 + "outside"]]
-    planted = t not in ("abs-outside", "sym-outside-only")
+    planted = t not in ("abs-outside", "sym-outside-only", "abs-sibling", "abs-sibling-dir")
     pre = gen_benign_members(rng, rng.randint(0, 3))
     post = gen_benign_members(rng, rng.randint(0, 2))
     # benign members must not shadow the planted names
@@ -593,7 +613,7 @@ def gen_random_members(rng, n):
             if r < 0.3:
                 tgt = "../" * rng.randint(1, 2) + tgt
             elif r < 0.4:
-                tgt = "$R/" + rng.choice(["outside", "outside/dir", WD, WD + "/sub"])
+                tgt = "$R/" + rng.choice(["outside", "outside/dir", WD, WD + "/sub"] + WD_SIBLINGS)
             elif r < 0.5:
                 tgt = "../" * rng.randint(1, 2)
                 tgt = tgt.rstrip("/")
@@ -734,6 +754,12 @@ def gen_source(rng, key_is_file_ok):
             src = "file.txt"
         elif r < 0.25:
             src = "nosrc"
+        elif r < 0.4:
+            # a directory next to the instance directory whose name extends (or is a prefix of) its name
+            src = "$R/" + rng.choice(INST_SIBLINGS) + rng.choice(["", "", "/sub"])
+        elif r < 0.47:
+            # a directory of the instance itself (beneath the target: nesting under it is legitimate)
+            src = "$R/" + INST + rng.choice(["", "/a", "/data"])
     return src + meth
 
 
@@ -741,7 +767,11 @@ def gen_deploy_case(rng):
     r = rng.random()
     if r < 0.25:
         # templates of the known escapes + near misses
-        t = rng.choice(["parent", "nested-under-link", "conf-link", "conf-file-link", "up-through-link", "nested-copy"])
+        t = rng.choice(["parent", "nested-under-link", "conf-link", "conf-file-link", "up-through-link", "nested-copy",
+                        "nested-under-sibling-link", "nested-under-sibling-link", "conf-sibling-link",
+                        "nested-under-inside-link", "relative-sibling-link"])
+        sib = "$R/" + rng.choice(INST_SIBLINGS)
+        k0 = rng.choice(KEYS[:3] + ["x"])
         if t == "parent":
             ents = [["../" * rng.randint(1, 2) + rng.choice(KEYS), "src1" + rng.choice(["", ":copy", ":link"])]]
         elif t == "nested-under-link":
@@ -752,6 +782,23 @@ def gen_deploy_case(rng):
             ents = [["conf", "src1:copy"], ["conf/flowir_package.yaml", "file.txt:link"]]
         elif t == "up-through-link":
             ents = [["a", "src1:link"], ["a/../x", "src2:copy"]]
+        elif t == "nested-under-sibling-link":
+            # the real location of the nested key's parent starts, as TEXT, with the instance directory's path
+            ents = [[k0, sib + rng.choice(["", "/sub"]) + ":link"],
+                    [k0 + "/" + rng.choice(["extra", "extra/deep", "keep.txt/x", "sub"]),
+                     "src2" + rng.choice(["", ":copy", ":link"])]]
+            if rng.random() < 0.3:
+                ents.insert(0, ["b" if k0 != "b" else "a", "src1:copy"])
+        elif t == "conf-sibling-link":
+            ents = [["conf", sib + ":link"]]
+            if rng.random() < 0.4:
+                ents.append(["conf/extra", "src1" + rng.choice(["", ":link"])])
+        elif t == "nested-under-inside-link":
+            # a link to a directory of the instance itself: nesting below it stays inside and is deployed
+            ents = [["a", "src1:copy"], ["b", "$R/" + INST + "/a:link"], ["b/" + rng.choice(["c", "c/d"]), "src2:copy"]]
+        elif t == "relative-sibling-link":
+            # the link text is relative to the directory of the package file: pkg/../inst/<sibling>
+            ents = [[k0, "../" + sib[3:] + ":link"], [k0 + "/extra", "src2:copy"]]
         else:
             ents = [["a/b/c", "src1"], ["a/b/d", "src2:link"], ["data", "src2:copy"]]
         cls = "template:" + t
@@ -804,6 +851,16 @@ CORPUS = [
     {"op": "deploy", "class": "corpus:C18e conf link", "entries": [["conf", "src1:link"]], "validate": True},
     {"op": "deploy", "class": "corpus:conf file link", "entries": [["conf", "src1:copy"], ["conf/flowir_package.yaml", "file.txt:link"]], "validate": False},
     {"op": "deploy", "class": "corpus:benign", "entries": [["a/b", "src1"], ["k", "src2:link"]], "validate": True},
+    {"op": "deploy", "class": "corpus:nested under a link to a prefix-named sibling",
+     "entries": [["data", "$R/" + INST + "-shared:link"], ["data/extra", "src1:copy"]], "validate": True},
+    {"op": "deploy", "class": "corpus:conf linked to a prefix-named sibling",
+     "entries": [["conf", "$R/" + INST + ".bak:link"]], "validate": True},
+    {"op": "deploy", "class": "corpus:nested under a link into the instance",
+     "entries": [["a", "src1:copy"], ["b", "$R/" + INST + "/a:link"], ["b/c", "src2:copy"]], "validate": True},
+    {"op": "extract", "class": "corpus:absolute member under a prefix-named sibling",
+     "members": [["file", "$R/" + WD + "-x/evil", ""]], "planted": False, "pre": []},
+    {"op": "extract", "class": "corpus:link to a prefix-named sibling",
+     "members": [["sym", "l", "$R/" + WD + "x"], ["file", "l/evil", ""]], "planted": True, "pre": []},
 ]
 
 
